@@ -15,7 +15,7 @@ use proptest::prelude::*;
 use proptest::strategy::BoxedStrategy;
 use serde::{Deserialize, Serialize};
 use serde_json::{json, Value};
-use std::collections::BTreeMap;
+use std::collections::{BTreeMap, BTreeSet};
 use std::hash::{Hash, Hasher};
 use std::panic::{catch_unwind, AssertUnwindSafe};
 
@@ -840,4 +840,124 @@ impl Engine for ScriptEngine {
 #[allow(dead_code)]
 fn unused() -> String {
     hexs(&[])
+}
+
+// ------------------------------------------------------------------ mass scripts
+
+/// One script with tens of thousands of variables (C05, C14): whatever table the names are
+/// kept in — by text, by a hash of it, by a number in it — every name must get an id of its
+/// own from next_id(). Names are word+number families like the ones people write ($edge120,
+/// $kid15602, $v7, $tmp_3), a different mix per worker. Oracle: deploy_to() returns the number
+/// of commands, the graph has exactly as many vertices as there are variables, and it equals
+/// the graph made by add(next_id()) once per variable.
+pub struct MassScript {
+    pub prop: &'static str,
+    pub shard: u64,
+    pub vars: usize,
+}
+
+impl MassScript {
+    fn names(&self) -> Vec<String> {
+        const WORDS: [&str; 16] = ["edge", "kid", "v", "node", "tmp_", "x", "obj", "attr", "ν", "left", "right", "Data", "item_", "n", "vertex", "e"];
+        const ALPHA: &[u8] = b"abcdefghijklmnopqrstuvwxyz0123456789_ABCDEFGHIJKLMNOPQRSTUVWXYZ";
+        let mut out = Vec::with_capacity(self.vars);
+        let mut seen = BTreeSet::new();
+        let mut k = 0usize;
+        let mut z = 0x9E37_79B9_7F4A_7C15u64.wrapping_mul(self.shard + 1);
+        while out.len() < self.vars {
+            let name = if k % 2 == 0 {
+                // word + number, the numbers running per word with a stride that differs per worker
+                let w = WORDS[(k / 2 + self.shard as usize * 5) % 16];
+                format!("{w}{}", k / 32 * (1 + self.shard as usize % 3) + self.shard as usize * 7)
+            } else {
+                // an identifier of 5..=10 characters that follows no pattern
+                z = z.wrapping_mul(6_364_136_223_846_793_005).wrapping_add(1_442_695_040_888_963_407);
+                let len = 5 + (z >> 60) as usize % 6;
+                let mut t = String::new();
+                let mut y = z;
+                for i in 0..len {
+                    y = y.wrapping_mul(6_364_136_223_846_793_005).wrapping_add(1);
+                    let c = ALPHA[(y >> 33) as usize % if i == 0 { 26 } else { ALPHA.len() }];
+                    t.push(c as char);
+                }
+                t
+            };
+            k += 1;
+            if seen.insert(name.clone()) {
+                out.push(name);
+            }
+        }
+        out
+    }
+
+    fn one(&self) -> Option<Failure> {
+        let fail = |kind: &str, d: String| Some(Failure { prop: self.prop.into(), kind: kind.into(), step: self.shard as usize, detail: format!("one script with {} variables (name mix {}): {d}", self.vars, self.shard) });
+        let names = self.names();
+        let distinct: BTreeSet<&String> = names.iter().collect();
+        if distinct.len() != names.len() {
+            return fail("harness.names_not_distinct", "the generated names repeat".into());
+        }
+        let mut text = String::with_capacity(names.len() * 16);
+        for n in &names {
+            text.push_str("ADD($");
+            text.push_str(n);
+            text.push_str(");\n");
+        }
+        let cap = names.len() + 8;
+        let mut g = crate::graph::new_graph(1, cap);
+        crate::campaign::touch();
+        match catch_unwind(AssertUnwindSafe(|| g.deploy(&text))) {
+            Err(e) => return fail("mass_script.panic", format!("deploy_to() panicked: {}", panic_text(e))),
+            Ok(Err(e)) => return fail("mass_script.error", format!("deploy_to() failed: {e:#}")),
+            Ok(Ok(n)) if n != names.len() => return fail("mass_script.count", format!("deploy_to() returned {n}")),
+            Ok(Ok(_)) => {}
+        }
+        crate::campaign::touch();
+        let keys = g.keys();
+        if keys.len() != names.len() {
+            return fail(
+                if self.prop == "C05" { "script_variable.given_a_present_id" } else { "script.query_differs" },
+                format!("the graph has {} vertices: {} variables were given the id of a vertex that was present already", keys.len(), names.len() - keys.len()),
+            );
+        }
+        // the same through the API
+        let mut d = crate::graph::new_graph(1, cap);
+        for _ in 0..names.len() {
+            let id = d.next_id();
+            d.add(id);
+        }
+        if d.keys() != keys {
+            return fail("script.query_differs", "keys() differ from the graph made by add(next_id()) once per variable".into());
+        }
+        None
+    }
+}
+
+impl Engine for MassScript {
+    type Case = u8;
+    fn name(&self) -> &'static str {
+        "mass-script"
+    }
+    fn strategy(&self, _: Tier) -> BoxedStrategy<u8> {
+        Just(0u8).boxed()
+    }
+    fn run(&self, _: &u8) -> CaseReport {
+        let failure = self.one();
+        CaseReport {
+            payload: failure.as_ref().map(|_| json!({"vars": self.vars, "name_mix": self.shard})),
+            failure,
+            evaluations: self.vars as u64,
+            sub_hashes: vec![self.shard ^ 0x3A55_0000 ^ (self.vars as u64) << 32],
+            nontrivial: true,
+            events: vec!["one script with tens of thousands of distinct variables"],
+            ..Default::default()
+        }
+    }
+    fn render(&self, _: &u8) -> Value {
+        let n = self.names();
+        json!({"variables": self.vars, "first_names": n.iter().take(12).collect::<Vec<_>>(), "last_name": n.last()})
+    }
+    fn replay(&self, payload: &Value) -> Option<Failure> {
+        MassScript { prop: self.prop, shard: payload["name_mix"].as_u64()?, vars: payload["vars"].as_u64()? as usize }.one()
+    }
 }
